@@ -43,7 +43,7 @@ def targeted(rng, n, jmax):
     return out
 
 
-def gap_calculate(run, cases, tol_small=1e-12, tol_big=1e-9, full_family=False):
+def gap_calculate(run, cases, tol_small=1e-12, tol_big=1e-9):
     import spherical
     calcs = {}
     worst = 0.0
@@ -59,7 +59,7 @@ def gap_calculate(run, cases, tol_small=1e-12, tol_big=1e-9, full_family=False):
             continue
         m1 = -(m2 + m3)
         tol = tol_small if max(j2, j3, j2 + j3) <= 16 else tol_big
-        j1s = range(0, j2 + j3 + 1) if (j2 + j3 <= 40 or full_family) else sorted({0, abs(j2 - j3), max(abs(j2 - j3), abs(m1)), (abs(j2 - j3) + j2 + j3) // 2, j2 + j3 - 1, j2 + j3} |
+        j1s = range(0, j2 + j3 + 1) if j2 + j3 <= 40 else sorted({0, abs(j2 - j3), max(abs(j2 - j3), abs(m1)), (abs(j2 - j3) + j2 + j3) // 2, j2 + j3 - 1, j2 + j3} |
                                                               {run.rng.randint(0, j2 + j3) for _ in range(4)})
         for j1 in j1s:
             if j1 < 0 or j1 > j2 + j3:
@@ -76,6 +76,33 @@ def gap_calculate(run, cases, tol_small=1e-12, tol_big=1e-9, full_family=False):
                 run.violation("3j-inaccurate", "Wigner3jCalculator.calculate", {**inp, "j1": j1, "jmax": max(j1, j2, j3)}, ex, got, detail={"kind": kind, "tol": tol})
                 break
     run.notes["worst_abs_err_calculate"] = worst
+
+
+def gap_zeros(run, zc):
+    import spherical
+    calcs = {}
+    for (j2, j3, m2, m3, jz) in zc:
+        j2, j3, m2, m3, jz = int(j2), int(j3), int(m2), int(m3), int(jz)
+        key = (j2, j3)
+        if key not in calcs:
+            calcs[key] = spherical.Wigner3jCalculator(j2, j3)
+        inp = {"j2": j2, "j3": j3, "m2": m2, "m3": m3}
+        try:
+            w = calcs[key].calculate(j2, j3, m2, m3).copy()
+        except Exception as e:   # noqa: BLE001
+            run.violation("calculate-raised", "Wigner3jCalculator.calculate", inp, "values", repr(e))
+            continue
+        m1 = -(m2 + m3)
+        tol = 1e-12 if max(j2, j3, j2 + j3) <= 16 else 1e-9
+        for j1 in (jz - 1, jz, jz + 1):
+            if j1 < 0 or j1 > j2 + j3:
+                continue
+            ex = oracle.w3j_exact(j1, j2, j3, m1, m2, m3)
+            got = float(w[j1])
+            run.gap_case("calculate-vs-racah", (j1, j2, j3, m2, m3), "nontrivial-zero", {"j1": j1, **inp, "exact": ex, "got": got})
+            if not (abs(ex - got) <= tol):
+                run.violation("3j-inaccurate", "Wigner3jCalculator.calculate", {**inp, "j1": j1, "jmax": max(j1, j2, j3)}, ex, got, detail={"kind": "nontrivial-zero", "tol": tol})
+                break
 
 
 def gap_front_ends(run, n, jmax):
@@ -167,14 +194,16 @@ def check(run):
     gap_calculate(run, [("exhaustive", *c) for c in exhaustive_cases(Jg)])
     gap_calculate(run, tg)
     # non-trivial zeros: argument sets whose family contains an exact zero strictly inside the admissible j1 range that no selection rule
-    # forces (corpus tools/w3j_zero_corpus.py -> vlib/data/w3j_nontrivial_zeros.json, found with the library, confirmed with the exact Racah
-    # sum).  There the forward and backward recurrences may have to meet on a vanishing term; the whole family is compared with the oracle.
-    zpath = os.path.join(os.path.dirname(os.path.abspath(__file__)), "..", "data", "w3j_nontrivial_zeros.json")
+    # forces (corpus tools/w3j_zero_corpus.py -> vlib/data/w3j_nontrivial_zeros.npy: found with the library at the pinned commit, each
+    # confirmed with the exact Racah sum).  There the forward and backward recurrences may have to meet on a vanishing term.  The zero and
+    # its two neighbours are compared with the oracle: every corpus entry in the thorough tier, a sample (plus the largest) in the quick one.
+    zpath = os.path.join(os.path.dirname(os.path.abspath(__file__)), "..", "data", "w3j_nontrivial_zeros.npy")
     if os.path.exists(zpath):
-        zc = json.load(open(zpath))["cases"]
-        zc.sort(key=lambda c: (c[0] + c[1], c))
-        pick = zc[-(250 if quick else 2500):] + [zc[i] for i in range(0, len(zc), max(1, len(zc) // (100 if quick else 1000)))]
-        gap_calculate(run, [("nontrivial-zero", j2, j3, m2, m3) for (j2, j3, m2, m3, _j1) in pick], full_family=True)
+        zc = np.load(zpath).astype(int)
+        if quick:
+            idx = sorted(set(rng.sample(range(len(zc)), min(15000, len(zc)))) | set(range(max(0, len(zc) - 300), len(zc))))
+            zc = zc[idx]
+        gap_zeros(run, zc)
     gap_front_ends(run, 400 if quick else 4000, 400)
     run.assumptions += ["identification of the Luscombe-Luban solution with the Racah 3-j symbol and the 1e-9/1e-12 bounds are checked by the oracle only",
                         "int32 arguments are promoted to int64 for arithmetic by numba; the declared return type of B truncates (generated B_ret)"]
